@@ -127,6 +127,19 @@ func (m *gm) step(op world.Op) bool {
 			return false // only interesting between two mocks of a live builder
 		}
 		g.needApply = true
+	case "ilook":
+		// a lookup that installs nothing: Interface(&v), .Method(name) or .Method(name).As(sig)
+		if op.T < 0 || op.T >= len(ifc.Ifaces) || op.N < 0 || op.N > 2 || op.F < 0 || op.F >= len(ifc.Ifaces[op.T].Methods) || op.V > 2 {
+			return false
+		}
+		g := m.g(vkey{op.T, op.N})
+		if g.dropped || (g.builder != -1 && g.builder != op.B) {
+			return false
+		}
+		if g.stub[op.F] && op.V == 2 {
+			return false // As() on a method whose stub is configured would start another template: not a documented form
+		}
+		g.builder = op.B
 	case "gc", "checkvars":
 	default:
 		return false
@@ -191,7 +204,9 @@ func (W) Gen(prop string, seed uint64, tier string) *world.Plan {
 		}
 		nm := len(ifc.Ifaces[k.t].Methods)
 		var op world.Op
-		switch r.Pick(26, 14, 22, 12, 6, 4, 9, 8, 7, 9, 10) {
+		switch r.Pick(26, 14, 22, 12, 6, 4, 9, 8, 7, 9, 10, 5) {
+		case 11:
+			op = world.Op{K: "ilook", B: b, T: k.t, N: k.n, F: r.Intn(nm), V: uint64(r.Intn(3))}
 		case 0:
 			op = world.Op{K: "iapply", B: b, T: k.t, N: k.n, F: r.Intn(nm), V: r.U64()}
 		case 1:
@@ -539,6 +554,37 @@ func (x *exec) step(op world.Op) {
 		s.assigned, s.reassigned = true, true
 		x.env.Probe("variable_reassigned_between_mocks")
 		x.env.T("iassign %s impl=%d", vname(k), op.F)
+	case "ilook":
+		k := vkey{op.T, op.N}
+		it := ifc.Ifaces[op.T]
+		m := it.Methods[op.F]
+		before := words(it.Vars[op.N])
+		var cim *mocker.CachedInterfaceMocker
+		if x.ikept && x.kept[k] != nil {
+			cim = x.kept[k]
+		} else {
+			cim = x.builder(op.B).Interface(it.Vars[op.N])
+			if x.ikept {
+				x.kept[k] = cim
+			}
+		}
+		switch op.V {
+		case 1:
+			cim.Method(m.Name)
+		case 2:
+			if m.Typ.NumOut() > 0 {
+				cim.Method(m.Name).As(m.Mk(&ifc.Rec{}))
+			}
+		}
+		x.env.Check()
+		if after := words(it.Vars[op.N]); after != before {
+			x.fail("iface/lookup-changed-var", "a lookup that installs nothing changed variable %s: %x -> %x", vname(k), before, after)
+		}
+		if s := x.v(k); !s.mocked && s.builder == -1 {
+			s.builder = op.B // Reset of this builder now visits the (empty) mocker of this variable
+		}
+		x.env.Probe("interface_lookup_without_mock")
+		x.env.T("ilook %s m%d v%d", vname(k), op.F, op.V)
 	case "icall":
 		x.callMethod(vkey{op.T, op.N}, op.F, op.W)
 	case "icallall":
